@@ -280,7 +280,7 @@ _quick("C12", "C12_logorder", "a leader persists 2..4 records through the real L
 
 _quick("C16", "C16_values", "key held by A (Count 1) with value v1; then nothing / a zero-expiry LOCK by another LockId sets v2 / B locks setting v2 and stays / B locks setting v2 and unlocks / B's unlock sets v3; rotation; real compaction; holders and value recovered by a fresh instance before and after the compaction compared", ["-witness", "1"])
 
-_quick("C16", "C16_stale", "the first compaction dies right after any one of its file-system mutations; a new instance starts on that directory (real find + load), persists one more hold and its release, rotates and compacts again; holds and depths recovered after that second compaction compared with those recovered from the crash image (symbolic executor only: crash images exist only in the file model)", ["-witness", "0"], reach=["end", "stale-tmp"], native=False)
+_quick("C16", "C16_stale", "the first compaction dies right after any one of its file-system mutations; a new instance starts on that directory (real find + load), persists one more hold and its release (with values in play: a hold with a value that stays), rotates and compacts again; holds, depths and values recovered after that second compaction compared with those recovered from the crash image (with values: with the live state) (symbolic executor only: crash images exist only in the file model)", ["-witness", "0"], reach=["end", "stale-tmp"], native=False)
 _quick("C16", "C16_staletmp", "as C16_stale for the one crash image that can be produced without a crash: rewrite.aof.tmp written completely by the real findRewriteAofFiles + loadRewriteAofFiles, inputs not yet removed", ["-witness", "2"], reach=["end", "stale-tmp"])
 
 _quick("C07", "C07_shared", "two holders of a key of capacity 5, each with its own persistence timing (default / persist-immediately / never-persist), 0 or 2 s later the queue drains and the instance restarts at once: per holder, restored exactly if its own flags say it counts as persisted", ["-witness", "2"])
